@@ -66,7 +66,16 @@ func (l *EventsLoader) LoadAndVerify(ctx context.Context, rawEvents []json.RawMe
 		events = append(events, event)
 	}
 
+	loaded := len(events)
 	events = ReverseTopologicalOrdering(events, sortOrder)
+	// The ordering returns each distinct event once. Further copies of an event
+	// that was listed more than once get a result of their own, after the
+	// events and before the load errors.
+	for i := len(events); i < loaded; i++ {
+		results[i] = EventLoadResult{
+			Error: fmt.Errorf("gomatrixserverlib: event is listed more than once"),
+		}
+	}
 	// assign the errors to the end of the slice
 	for i := 0; i < len(errs); i++ {
 		results[len(results)-len(errs)+i] = EventLoadResult{
